@@ -2,6 +2,8 @@ package main
 
 import (
 	"fmt"
+	"os"
+	"time"
 	"math/big"
 
 	"golang.org/x/tools/go/ssa"
@@ -50,8 +52,17 @@ func (x *Exec) assert(c *Term, msg string) {
 		x.res.Asserts = append(x.res.Asserts, rec)
 		panic(pathEnd{Kind: "assertfail", Msg: msg, Site: x.site()})
 	default:
+		if os.Getenv("GOSYM_DEBUG_ASSERT") != "" {
+			str := x.ctx.Script([]*Term{c}, "")
+			if len(str) > 6000 {
+				str = str[:3000] + "\n.....\n" + str[len(str)-3000:]
+			}
+			fmt.Fprintf(os.Stderr, "ASSERT %s: %s\n", msg, str)
+		}
 		conds := append(append([]*Term{}, x.pc...), x.ctx.Not(c))
+		t0 := time.Now()
 		res, m := x.solver.Check(conds, true)
+		rec.Ms = int(time.Since(t0).Milliseconds())
 		switch res {
 		case Unsat:
 			rec.Status = "discharged"
